@@ -232,6 +232,20 @@ def check_state(typ, syn, kind, key, subset, top='MARKER'):
             b = 'EXC:' + type(e).__name__
         if a != b:
             bad.append(('expand-winner:%s' % kind, dict(key=key, probe=pr, layered=a[:120], explicit=b[:120], layers=list(subset))))
+        if typ == 'markup':
+            # the same pair once more with wrap text in the call configuration (markup hides the text from the snippet resolver)
+            ut, ue = copy.deepcopy(u0), copy.deepcopy(user3)
+            ut['text'] = ue['text'] = 'T9'
+            try:
+                at = expand(pr, ut, copy.deepcopy(g0))
+            except Exception as e:
+                at = 'EXC:' + type(e).__name__
+            try:
+                bt = expand(pr, ue, {})
+            except Exception as e:
+                bt = 'EXC:' + type(e).__name__
+            if at != bt:
+                bad.append(('expand-winner-with-wrap-text:%s' % kind, dict(key=key, probe=pr, layered=at[:120], explicit=bt[:120], layers=list(subset))))
         if key == 'jsx.enabled' and not a.startswith('EXC:') and syn not in ('pug', 'haml', 'slim'):     # (these write both readings alike)
             # an absolute expectation as well: both expansions above go through the same parser
             if ('<Foo.Bar' in a) != bool(exp.get(key)):
